@@ -162,3 +162,106 @@ fn c36_q_stroke_rect_3x4_corner() {
     kani::cover!(inside && !on_border, "interior pixel");
     assert!((img[[y, x]] == 9) == on_border, "stroke_rect set the wrong pixels");
 }
+
+// ---------------------------------------------------------------------------
+// PROBES, not checks: the `c36_p_*` harnesses below are not run by the driver
+// (it only runs `c36_q_*` / `c36_t_*`). Neither form got a verdict from CBMC
+// within 15 min / 4.9 GB, even on a 1x2 mask; see DESIGN.md, C36.
+// ---------------------------------------------------------------------------
+
+/// `find_contours` on every H x W boolean mask (all 2^(H*W) masks are one
+/// symbolic input): tracing never indexes outside the padded working copy (the
+/// bounds-checked index would panic), every contour is non-empty, every traced
+/// point lies inside the image on a foreground pixel (on images this small
+/// every pixel touches the image edge, so "adjacent to the background or the
+/// image edge" holds for every foreground pixel), and there is at least one
+/// contour exactly when the mask has a foreground pixel. On these sizes all
+/// foreground pixels are 8-connected when H <= 2 and W <= 2, so External mode
+/// must return exactly one contour there.
+macro_rules! contours_on_mask {
+    ($name:ident, $h:expr, $w:expr, $mode:expr, $unwind:expr, $single:expr) => {
+        #[kani::proof]
+        #[kani::unwind($unwind)]
+        fn $name() {
+            let bits: [[bool; $w]; $h] = kani::any();
+            let mut mask = NdTensor::<bool, 2>::zeros([$h, $w]);
+            let mut any_fg = false;
+            let mut y = 0;
+            while y < $h {
+                let mut x = 0;
+                while x < $w {
+                    mask[[y, x]] = bits[y][x];
+                    any_fg |= bits[y][x];
+                    x += 1;
+                }
+                y += 1;
+            }
+            let contours = crate::find_contours(mask.view(), $mode);
+            kani::cover!(any_fg, "mask with foreground");
+            let n = contours.len();
+            assert!((n >= 1) == any_fg, "foreground component without contour, or contour without foreground");
+            if $single {
+                assert!(n <= 1, "one 8-connected component traced more than once");
+            }
+            assert!(n <= $h * $w);
+            // An arbitrary point of an arbitrary contour.
+            let ci: usize = kani::any();
+            kani::assume(ci < n);
+            let mut it = contours.iter();
+            let mut k = 0;
+            let mut poly: &[Point] = &[];
+            while k <= ci && k < $h * $w {
+                poly = it.next().unwrap();
+                k += 1;
+            }
+            assert!(!poly.is_empty(), "empty contour");
+            assert!(poly.len() <= 2 * $h * $w, "contour longer than twice the pixel count");
+            let pi: usize = kani::any();
+            kani::assume(pi < poly.len());
+            let p = poly[pi];
+            assert!(p.y >= 0 && (p.y as usize) < $h && p.x >= 0 && (p.x as usize) < $w, "contour point outside the image");
+            assert!(bits[p.y as usize][p.x as usize], "contour point on a background pixel");
+            std::mem::forget(contours);
+        }
+    };
+}
+
+/// Count-only variant: for every H x W mask `find_contours` returns (no index
+/// panic, tracing terminates within the unwinding bound) and the number of
+/// contours equals the number of 8-connected foreground components, given in
+/// closed form by `$components` (masks this small cannot contain holes, so the
+/// count is the same in both retrieval modes).
+macro_rules! contour_count {
+    ($name:ident, $h:expr, $w:expr, $mode:expr, $unwind:expr, $components:expr) => {
+        #[kani::proof]
+        #[kani::unwind($unwind)]
+        fn $name() {
+            let bits: [[bool; $w]; $h] = kani::any();
+            let mut mask = NdTensor::<bool, 2>::zeros([$h, $w]);
+            let mut y = 0;
+            while y < $h {
+                let mut x = 0;
+                while x < $w {
+                    mask[[y, x]] = bits[y][x];
+                    x += 1;
+                }
+                y += 1;
+            }
+            let contours = crate::find_contours(mask.view(), $mode);
+            let expect: usize = ($components)(&bits);
+            kani::cover!(expect >= 1, "mask with foreground");
+            assert!(contours.len() == expect, "number of contours differs from the number of 8-connected components");
+            std::mem::forget(contours);
+        }
+    };
+}
+contour_count!(c36_p_count_external_1x2, 1, 2, crate::RetrievalMode::External, 14,
+    |b: &[[bool; 2]; 1]| (b[0][0] || b[0][1]) as usize);
+contour_count!(c36_p_count_external_2x2, 2, 2, crate::RetrievalMode::External, 18,
+    |b: &[[bool; 2]; 2]| (b[0][0] || b[0][1] || b[1][0] || b[1][1]) as usize);
+contour_count!(c36_p_count_list_2x3, 2, 3, crate::RetrievalMode::List, 22,
+    |b: &[[bool; 3]; 2]| if b[0][1] || b[1][1] { 1 } else { (b[0][0] || b[1][0]) as usize + (b[0][2] || b[1][2]) as usize });
+// Form (i) (count + an arbitrary traced point): stopped after 11 min at 4.7 GB per harness.
+contours_on_mask!(c36_p_contours_external_1x2, 1, 2, crate::RetrievalMode::External, 14, true);
+contours_on_mask!(c36_p_contours_external_2x2, 2, 2, crate::RetrievalMode::External, 18, true);
+contours_on_mask!(c36_p_contours_list_2x2, 2, 2, crate::RetrievalMode::List, 18, false);
